@@ -651,13 +651,13 @@ func checkAccessorPair(w *World, r *Report, a *accessor, storage string, arrN in
 				} else {
 					want = it2.T.zero
 				}
-				if v.B[b] != want {
+				if v.B[b] != want && !it2.T.Equiv(v.B[b], want) {
 					setOK = false
 					r.Fail("bits.setget", fnS, a.Field, posS, fmt.Sprintf("after the setter, %s bit %d is %s; the documented field (%s) wants argument bit %d", cell, b, v.B[b], lay, pi), nil)
 				}
 				continue
 			}
-			if v.B[b] != it2.T.Src(cell, b) {
+			if v.B[b] != it2.T.Src(cell, b) && !it2.T.Equiv(v.B[b], it2.T.Src(cell, b)) {
 				other := otherFieldAt(fields, a.Field, storage, cell, b)
 				if other != "" {
 					frameOK = false
@@ -695,7 +695,7 @@ func checkAccessorPair(w *World, r *Report, a *accessor, storage string, arrN in
 			} else {
 				want = it2.T.zero
 			}
-			if g2.B[i] != want {
+			if g2.B[i] != want && !it2.T.Equiv(g2.B[i], want) {
 				sgOK = false
 				break
 			}
